@@ -38,7 +38,15 @@ def gen_doc(rng, fmt, quadfmt, existing_ids):
         if quadfmt and rng.random() < 0.6:
             g = rng.choice([["u", G[0]], ["b", "gb"], ["b", rng.choice(labels)]])
         quads.append([s, ["u", rng.choice(P)], o, g])
-    return dict(fmt=fmt, quads=quads, truncate=rng.random() < 0.08)
+    doc = dict(fmt=fmt, quads=quads, truncate=rng.random() < 0.08)
+    if fmt in ("turtle", "n3") and not quadfmt and rng.random() < 0.2:
+        # two anonymous nodes ([]) of one document, the second one written on the physical line where a multi-line string of the first
+        # statement ends - with or without the two '[' in the same column; they are two nodes
+        quads.append([["b", "anonA"], ["u", P[0]], ["l", "a\nb", None, None], None])
+        quads.append([["b", "anonB"], ["u", P[0]], ["l", "z", None, None], None])
+        doc["anon_layout"] = [rng.choice([7, 8, 10, 12]), rng.random() < 0.6]
+        doc["truncate"] = False
+    return doc
 
 
 def gen_case(rng):
@@ -70,7 +78,14 @@ def nt_term(t):
 def render(doc):
     fmt, quads = doc["fmt"], doc["quads"]
     if fmt in ("nt", "turtle", "n3"):
-        return "".join("%s %s %s .\n" % (nt_term(q[0]), nt_term(q[1]), nt_term(q[2])) for q in quads)
+        plain = [q for q in quads if not (q[0][0] == "b" and q[0][1].startswith("anon"))]
+        text = "".join("%s %s %s .\n" % (nt_term(q[0]), nt_term(q[1]), nt_term(q[2])) for q in plain)
+        if doc.get("anon_layout"):
+            indent, align = doc["anon_layout"]
+            tail = 'b""" .'
+            pad = " " * ((indent - len(tail)) if align else 1)
+            text += "%s[] <%s> \"\"\"a\n%s%s[] <%s> \"z\" .\n" % (" " * indent, P[0], tail, pad, P[0])
+        return text
     if fmt == "nquads":
         return "".join("%s %s %s %s.\n" % (nt_term(q[0]), nt_term(q[1]), nt_term(q[2]), (nt_term(q[3]) + " ") if q[3] else "") for q in quads)
     if fmt == "trig":
